@@ -2,6 +2,7 @@
 
 from __future__ import annotations
 
+from decimal import Decimal
 from typing import TYPE_CHECKING
 from typing import Iterable
 
@@ -27,6 +28,22 @@ def _contains(items: list[object], obj: object) -> bool:
     return any(_eq(item, obj) for item in items)
 
 
+def _is_scalar(obj: object) -> bool:
+    """Is _obj_ a string, number, boolean or nil that equals itself?
+
+    That includes `Markup`, which is what every string is when auto-escape is on.
+    A NaN is not equal to anything, and goes the long way round.
+    """
+    if obj is None:
+        return True
+    if isinstance(obj, (str, int, float, Decimal)) and not hasattr(obj, "__liquid__"):
+        try:
+            return bool(obj == obj)  # noqa: PLR0124
+        except ArithmeticError:
+            return False
+    return False
+
+
 class _Seen:
     """The distinct values met so far, by Liquid equality.
 
@@ -44,9 +61,9 @@ class _Seen:
 
     def add(self, obj: object) -> bool:
         """Return `True` if _obj_ is new, `False` if an equal value was seen before."""
-        if type(obj) in (str, int, float, bool, type(None)) and obj == obj:  # noqa: PLR0124
+        if _is_scalar(obj):
             # Remember 1 == True and 0 == False in Python, but not in Liquid.
-            key = (type(obj) is bool, obj)
+            key = (isinstance(obj, bool), obj)
             if key in self.scalars or (self.others and _contains(self.others, obj)):
                 return False
             self.scalars.add(key)
